@@ -105,7 +105,8 @@ def real_ix(ix):
     if f == 'list':
         return list(ix['l'])
     if f == 'mask':
-        return np.array(ix['m'], dtype=bool)
+        m = np.array(ix['m'], dtype=bool)
+        return [bool(x) for x in m] if _h('mask', ix['m']) % 2 else m          # a mask may also come as a plain list of python bools
     raise KeyError(f)
 
 
